@@ -69,6 +69,7 @@ type report struct {
 	LockSites       int            `json:"lock_sites"`
 	AtomicSites     int            `json:"atomic_sites"`
 	RandCalls       int            `json:"rand_calls"`
+	ChanOps         int            `json:"chan_ops"`
 	GoStmts         []string       `json:"go_statements"`
 	Taps            []string       `json:"taps"`
 	Warnings        []string       `json:"warnings"`
@@ -248,6 +249,7 @@ func (r *rewriter) pkgOf(id *ast.Ident) string {
 
 func (r *rewriter) run() {
 	r.need = map[string]bool{}
+	r.channels()
 	type lockCall struct {
 		call *ast.CallExpr
 		name string
@@ -487,6 +489,208 @@ func (r *rewriter) run() {
 		r.changed = true
 	}
 	r.taps()
+}
+
+// channels rewrites every channel operation of the file so that it goes through the simulator's channel table
+// (sim/simrt/chan.go):
+//
+//	make(chan T, n)           ->  simrt.MakeChan(make(chan T, n))
+//	ch <- v                   ->  simrt.ChanSend(ch, v, site)
+//	<-ch   (any context)      ->  <-simrt.RecvVia(ch, site)
+//	for v := range ch         ->  for v := range simrt.ChanRange(ch, site)
+//	close(ch), len(ch)        ->  simrt.ChanClose(ch, site), simrt.ChanLen(ch)
+//	select { ... }            ->  switch s := simrt.Select(site, hasDefault, cases...); s.Index { ... }
+func (r *rewriter) channels() {
+	isChan := func(e ast.Expr) bool {
+		t := r.info.TypeOf(e)
+		if t == nil {
+			return false
+		}
+		_, ok := t.Underlying().(*types.Chan)
+		return ok
+	}
+	builtin := func(e ast.Expr, name string) bool {
+		id, ok := e.(*ast.Ident)
+		if !ok || id.Name != name {
+			return false
+		}
+		_, ok = r.info.Uses[id].(*types.Builtin)
+		return ok
+	}
+	unparen := func(e ast.Expr) ast.Expr {
+		for {
+			p, ok := e.(*ast.ParenExpr)
+			if !ok {
+				return e
+			}
+			e = p.X
+		}
+	}
+	type slot struct {
+		p   *ast.Stmt
+		pos token.Pos
+	}
+	var (
+		slots    []slot
+		recvs    []*ast.UnaryExpr
+		ranges   []*ast.RangeStmt
+		makes    []*ast.CallExpr
+		closes   []*ast.CallExpr
+		lens     []*ast.CallExpr
+		commRecv = map[*ast.UnaryExpr]bool{}
+		commSend = map[*ast.SendStmt]bool{}
+	)
+	addList := func(list []ast.Stmt) {
+		for i := range list {
+			switch list[i].(type) {
+			case *ast.SendStmt, *ast.SelectStmt:
+				slots = append(slots, slot{&list[i], list[i].Pos()})
+			}
+		}
+	}
+	ast.Inspect(r.file, func(n ast.Node) bool {
+		switch x := n.(type) {
+		case *ast.BlockStmt:
+			addList(x.List)
+		case *ast.CaseClause:
+			addList(x.Body)
+		case *ast.CommClause:
+			addList(x.Body)
+			switch c := x.Comm.(type) {
+			case *ast.SendStmt:
+				commSend[c] = true
+			case *ast.ExprStmt:
+				if u, ok := unparen(c.X).(*ast.UnaryExpr); ok {
+					commRecv[u] = true
+				}
+			case *ast.AssignStmt:
+				if len(c.Rhs) == 1 {
+					if u, ok := unparen(c.Rhs[0]).(*ast.UnaryExpr); ok {
+						commRecv[u] = true
+					}
+				}
+			}
+		case *ast.LabeledStmt:
+			switch x.Stmt.(type) {
+			case *ast.SendStmt, *ast.SelectStmt:
+				slots = append(slots, slot{&x.Stmt, x.Stmt.Pos()})
+			}
+		case *ast.ForStmt:
+			if _, ok := x.Post.(*ast.SendStmt); ok {
+				slots = append(slots, slot{&x.Post, x.Post.Pos()})
+			}
+		case *ast.IfStmt:
+			if _, ok := x.Init.(*ast.SendStmt); ok {
+				r.rep.Warnings = append(r.rep.Warnings, r.site(x.Pos())+" channel send in an if-initialiser is not simulated")
+			}
+		case *ast.UnaryExpr:
+			if x.Op == token.ARROW {
+				recvs = append(recvs, x)
+			}
+		case *ast.RangeStmt:
+			if isChan(x.X) {
+				ranges = append(ranges, x)
+			}
+		case *ast.CallExpr:
+			switch {
+			case builtin(x.Fun, "make") && isChan(x):
+				makes = append(makes, x)
+			case builtin(x.Fun, "close") && len(x.Args) == 1:
+				closes = append(closes, x)
+			case builtin(x.Fun, "len") && len(x.Args) == 1 && isChan(x.Args[0]):
+				lens = append(lens, x)
+			}
+		}
+		return true
+	})
+	if len(slots)+len(recvs)+len(ranges)+len(makes)+len(closes)+len(lens) == 0 {
+		return
+	}
+	call := func(name string, args ...ast.Expr) *ast.CallExpr {
+		return &ast.CallExpr{Fun: sel("simrt", name), Args: args}
+	}
+	for _, u := range recvs {
+		if commRecv[u] {
+			continue
+		}
+		u.X = call("RecvVia", u.X, siteLit(r.site(u.Pos())))
+		r.rep.ChanOps++
+	}
+	for _, rs := range ranges {
+		rs.X = call("ChanRange", rs.X, siteLit(r.site(rs.Pos())))
+		r.rep.ChanOps++
+	}
+	for _, c := range makes {
+		orig := *c
+		*c = ast.CallExpr{Fun: sel("simrt", "MakeChan"), Args: []ast.Expr{&orig}}
+		r.rep.ChanOps++
+	}
+	for _, c := range closes {
+		c.Fun = sel("simrt", "ChanClose")
+		c.Args = append(c.Args, siteLit(r.site(c.Pos())))
+		r.rep.ChanOps++
+	}
+	for _, c := range lens {
+		c.Fun = sel("simrt", "ChanLen")
+		r.rep.ChanOps++
+	}
+	// statements, innermost first (the rewritten select reuses the clause bodies)
+	sort.Slice(slots, func(i, j int) bool { return slots[i].pos > slots[j].pos })
+	for _, sl := range slots {
+		switch st := (*sl.p).(type) {
+		case *ast.SendStmt:
+			if commSend[st] {
+				continue
+			}
+			*sl.p = &ast.ExprStmt{X: call("ChanSend", st.Chan, st.Value, siteLit(r.site(st.Pos())))}
+			r.rep.ChanOps++
+		case *ast.SelectStmt:
+			name := "verifSel" + strconv.Itoa(r.fset.Position(st.Pos()).Offset)
+			hasDefault := "false"
+			for _, c := range st.Body.List {
+				if c.(*ast.CommClause).Comm == nil {
+					hasDefault = "true"
+				}
+			}
+			args := []ast.Expr{siteLit(r.site(st.Pos())), ast.NewIdent(hasDefault)}
+			var clauses []ast.Stmt
+			idx := 0
+			for _, c := range st.Body.List {
+				cc := c.(*ast.CommClause)
+				if cc.Comm == nil {
+					clauses = append(clauses, &ast.CaseClause{Body: cc.Body})
+					continue
+				}
+				body := cc.Body
+				switch comm := cc.Comm.(type) {
+				case *ast.SendStmt:
+					args = append(args, call("SendCase", comm.Chan, comm.Value))
+				case *ast.ExprStmt:
+					u := unparen(comm.X).(*ast.UnaryExpr)
+					args = append(args, call("RecvCase", u.X))
+				case *ast.AssignStmt:
+					u := unparen(comm.Rhs[0]).(*ast.UnaryExpr)
+					args = append(args, call("RecvCase", u.X))
+					fn := "SelRecv"
+					if len(comm.Lhs) == 2 {
+						fn = "SelRecv2"
+					}
+					as := &ast.AssignStmt{Lhs: comm.Lhs, Tok: comm.Tok, Rhs: []ast.Expr{call(fn, ast.NewIdent(name), u.X)}}
+					body = append([]ast.Stmt{as}, cc.Body...)
+				}
+				clauses = append(clauses, &ast.CaseClause{List: []ast.Expr{&ast.BasicLit{Kind: token.INT, Value: strconv.Itoa(idx)}}, Body: body})
+				idx++
+			}
+			*sl.p = &ast.SwitchStmt{
+				Init: &ast.AssignStmt{Lhs: []ast.Expr{ast.NewIdent(name)}, Tok: token.DEFINE, Rhs: []ast.Expr{call("Select", args...)}},
+				Tag:  &ast.SelectorExpr{X: ast.NewIdent(name), Sel: ast.NewIdent("Index")},
+				Body: &ast.BlockStmt{List: clauses},
+			}
+			r.rep.ChanOps++
+		}
+	}
+	r.need["simrt"] = true
+	r.changed = true
 }
 
 func recvTypeName(t types.Type) string {
